@@ -514,6 +514,63 @@ func c02Prop(c *Ctx) {
 		}
 	}
 	c.Res.Samples = append(c.Res.Samples, c02Gen(c.Rng, "stmt", false))
+	c02Known(c)
+}
+
+// Recorded findings: layouts the generator above does not produce, where the attachment model binds a
+// comment (or a separator) to another node than the chunk it belongs to.  Each: a canonical source,
+// one edit of one list, and gofmt of the source with the same chunks edited.
+type c02Fixed struct {
+	Key, Src, Edit, Want string
+	Do                   func(f *dst.File)
+}
+
+func c02Known(c *Ctx) {
+	body := func(f *dst.File) *[]dst.Stmt { return &f.Decls[0].(*dst.FuncDecl).Body.List }
+	cases := []c02Fixed{
+		{Key: "clause-body-last-trailing-comment",
+			Src:  "package a\n\nfunc f() {\n\tswitch x {\n\tcase 1:\n\t\ta()\n\t\tb() // about b\n\t}\n}\n",
+			Edit: "swap the two statements of the case body",
+			Want: "package a\n\nfunc f() {\n\tswitch x {\n\tcase 1:\n\t\tb() // about b\n\t\ta()\n\t}\n}\n",
+			Do: func(f *dst.File) {
+				l := &(*body(f))[0].(*dst.SwitchStmt).Body.List[0].(*dst.CaseClause).Body
+				(*l)[0], (*l)[1] = (*l)[1], (*l)[0]
+			}},
+		{Key: "tail-comment-bound-to-last-element",
+			Src:  "package a\n\nfunc f() {\n\ta()\n\tb()\n\t// closing remark about the whole block\n}\n",
+			Edit: "delete the last statement",
+			Want: "package a\n\nfunc f() {\n\ta()\n\t// closing remark about the whole block\n}\n",
+			Do:   func(f *dst.File) { l := body(f); *l = (*l)[:1] }},
+		{Key: "detached-head-comment-bound-to-first-decl",
+			Src:  "package a\n\n// Section: helpers.\n\nfunc f() {}\n\nfunc g() {}\n",
+			Edit: "delete the first declaration",
+			Want: "package a\n\n// Section: helpers.\n\nfunc g() {}\n",
+			Do:   func(f *dst.File) { f.Decls = f.Decls[1:] }},
+		{Key: "blank-line-separator-stored-per-node",
+			Src:  "package a\n\nfunc f() {\n\ta()\n\n\tb()\n\n\tc()\n}\n",
+			Edit: "swap the first two statements of a blank-line-separated list",
+			Want: "package a\n\nfunc f() {\n\tb()\n\n\ta()\n\n\tc()\n}\n",
+			Do:   func(f *dst.File) { l := body(f); (*l)[0], (*l)[1] = (*l)[1], (*l)[0] }},
+	}
+	for _, k := range cases {
+		if !isCanonical(k.Src) || !isCanonical(k.Want) {
+			continue
+		}
+		f, err := decorator.Parse(k.Src)
+		if err != nil {
+			continue
+		}
+		c.Res.Evaluations++
+		var out string
+		var perr error
+		pm := safely(func() {
+			k.Do(f)
+			out, perr, _ = printDst(f)
+		})
+		if pm != "" || perr != nil || out != k.Want {
+			c.Res.fail(k.Key, fmt.Sprintf("%s: the print is not gofmt of the chunk-edited source (%v %s):\n%s", k.Edit, perr, pm, firstDiff(k.Want, out)), map[string]string{"src": k.Src, "edit": k.Edit, "want": k.Want})
+		}
+	}
 }
 
 func init() {
